@@ -72,21 +72,36 @@ def check_relations(ca, fd, down):
             raise Violation(f"upstream({c}) row not padded with -1: {row}")
     # vectors in another order and with repeats give the same rows
     order = [(7 * i + 3) % n for i in range(n)] + [0, n - 1, 0]
-    d2 = ca.downstream(np.array(order))
-    u2 = ca.upstream(np.array(order))
+    # (queried as a list / an int32 array; a single cell as a scalar)
+    d2 = ca.downstream(list(order))
+    u2 = ca.upstream(np.array(order, dtype=np.int32))
+    c1 = order[0]
+    if [int(x) for x in ca.downstream(c1)] != [int(down[c1])] or \
+            not np.array_equal(ca.upstream(c1), u[[c1]]):
+        raise Violation(f"upstream/downstream of the single cell {c1} "
+                        f"given as a scalar differ; grid {fd.tolist()}")
     if [int(x) for x in d2] != [int(down[c]) for c in order] or \
             not np.array_equal(u2, u[np.array(order)]):
         raise Violation(f"upstream/downstream depend on the order of the "
                         f"queried cells ({order}); grid {fd.tolist()}")
 
 
+ICONT = ["list", "int64", "tuple", "int32", "float"]
+
+
 def check_area(ca, fd, down, outlet, inlets, labels):
     nr, nc = fd.shape
     n = fd.size
     cyc = G.on_cycle(down, outlet)
+    # the inlets as a list, tuple, int64 / int32 / float array
+    ic = ICONT[(outlet + len(inlets)) % len(ICONT)] if inlets else "none"
+    labels.add(f"inlets-as:{ic}")
+    inl = {"none": None, "list": list(inlets), "tuple": tuple(inlets),
+           "int64": np.array(inlets, dtype=np.int64),
+           "int32": np.array(inlets, dtype=np.int32),
+           "float": np.array(inlets, dtype=np.float64)}[ic]
     try:
-        ca.delineate_area(outlet, inlets if inlets else None,
-                          nval=4 * n + 8)
+        ca.delineate_area(outlet, inl, nval=4 * n + 8)
     except ValueError as e:
         if cyc:
             labels.add("cycle:rejected")
